@@ -743,10 +743,8 @@ struct DoubleSize<Number_T, 64U> {
         dividend_high += carry;
         // -----------------------
         if (original_dividend_high > dividend_high) {
-            // Overflow
-            constexpr Number_T overflow_dividend = (Number_T{1} << (width_ - 1U));
-
-            dividend_high += ((overflow_dividend % (divisor >> 1U)) << 1U);
+            // Overflow: the true sum is (dividend_high + 2^width) and is below (2 * divisor).
+            dividend_high -= divisor;
             ++dividend_low;
         }
 
